@@ -16,6 +16,7 @@ import (
 	"math/rand"
 	"os"
 	"strings"
+	"time"
 )
 
 func vDumpLB(id int, b *UnsafeLinkBuffer) string {
@@ -480,6 +481,30 @@ func (w *vWorld) rdSize(L int) int {
 	return n
 }
 
+// vExecGuard runs one op with a watchdog: a call into the buffer that never returns (e.g. a walk over a node
+// chain that has become cyclic) is reported as "hang" and ends the process (exit code 3): the spinning
+// goroutine cannot be stopped and would disturb everything after it.
+func vExecGuard(w *vWorld, toks []string, ow, iw, ownW *bufio.Writer) string {
+	ch := make(chan string, 1)
+	go func() { ch <- w.exec(toks) }()
+	select {
+	case r := <-ch:
+		return r
+	case <-time.After(20 * time.Second):
+		fmt.Fprintln(iw, "hang")
+		if ownW != nil {
+			fmt.Fprintln(ownW, "@@  !! hang: the call never returned")
+			ownW.Flush()
+		}
+		if ow != nil {
+			ow.Flush()
+		}
+		iw.Flush()
+		os.Exit(3)
+		return "hang"
+	}
+}
+
 // VerifLBMain: lbdiff -seed S -seqs N -ops K -mode valid|malformed -ops-out F -impl-out F [-replay F]
 func VerifLBMain(args []string) int {
 	fs := flag.NewFlagSet("lbdiff", flag.ContinueOnError)
@@ -560,7 +585,7 @@ func VerifLBMain(args []string) int {
 				}
 				continue
 			}
-			rep := w.exec(toks)
+			rep := vExecGuard(w, toks, nil, iw, ownW)
 			if rep == "panic" {
 				dead = true
 			}
@@ -596,7 +621,7 @@ func VerifLBMain(args []string) int {
 		for i := 0; i < *nops; i++ {
 			line := w.gen()
 			fmt.Fprintln(ow, line)
-			rep := w.exec(strings.Fields(line))
+			rep := vExecGuard(w, strings.Fields(line), ow, iw, ownW)
 			fmt.Fprintln(iw, rep)
 			if ownW != nil {
 				fmt.Fprintln(ownW, strings.TrimSpace(w.own.after(w)))
